@@ -9,6 +9,7 @@ TSched == Ev.e = "Sched" /\ Sched(Ev.task, <<Ev.at[1], Ev.at[2]>>)
 TCancel == Ev.e = "Cancel" /\ Cancel(Ev.task)
 TInvoked == Ev.e = "Invoked" /\ Invoked(Ev.task, Ev.status, Ev.thr, <<Ev.vt[1], Ev.vt[2]>>)
 TIdle == Ev.e = "Idle" /\ Idle(<<Ev.vt[1], Ev.vt[2]>>, Ev.unforced)
+TAcqRef == Ev.e = "AcqRef" /\ AcqRef
 TRelBegin == Ev.e = "RelBegin" /\ RelBegin
 TRelEnd == Ev.e = "RelEnd" /\ RelEnd
 TEnd == Ev.e = "End" /\ Finished(Ev.live, Ev.unjoined)
@@ -18,7 +19,7 @@ ResetVars == /\ st' = [t \in Tasks |-> "idle"] /\ due' = [t \in Tasks |-> <<0, 0
 TResetA == Ev.e = "Reset" /\ ResetVars
 
 TNext == l <= TraceLen /\ l' = l + 1 /\
-         (TResetA \/ TSetup \/ TSched \/ TCancel \/ TInvoked \/ TIdle \/ TRelBegin \/ TRelEnd \/ TEnd)
+         (TResetA \/ TSetup \/ TSched \/ TCancel \/ TInvoked \/ TIdle \/ TAcqRef \/ TRelBegin \/ TRelEnd \/ TEnd)
 TInit == l = 1 /\ AbsInit(0)
 TSpec == TInit /\ [][TNext]_<<absvars, l>>
 =============================================================================
